@@ -19,6 +19,10 @@ type c09Op struct {
 	From  []string `json:"from"`  // nil = member absent
 	Path  []string `json:"path"`  // nil = member absent
 	Value W        `json:"value"` // nil = member absent
+	// ValueFrom (pipeline.PatchOp only): the value is read from this location of the live
+	// document when the step runs; the harness resolves it on the reference document first
+	// and records it in Value, so the interpreter below never sees it.
+	ValueFrom []string `json:"valueFrom,omitempty"`
 }
 
 var errC09Ref = errors.New("rfc6902: operation fails")
